@@ -13,6 +13,7 @@ import os
 from lib import repo, simmp, simrun, guard
 from checks import c01, c03
 
+FLAVOURS = ["plain", "unpicklable", "signal"]
 WQ_CFG = c03.CFG
 WALK_CFG = c01.CFG
 
@@ -44,12 +45,15 @@ def explore_stage_faults(ctx, stage, nws, policies, runs, items_subset=None, all
             for pol in policies:
                 for k in range(runs):
                     log = []
+                    stage.flavour = FLAVOURS[ctx.rng.randrange(len(FLAVOURS))]
                     out = simrun.run(stage.main(nw, log, faults=fset), simrun.POLICIES[pol](ctx.rng))
+                    flav = stage.flavour
+                    stage.flavour = "plain"
                     ctx.count()
                     fs = any(tag == "cb_start" and p[0] in fset for tag, p, who in log)
-                    rep = {"stage": stage.name, "fault_item": it, "workers": nw, "policy": pol, "status": out.status, "fault_started": fs,
+                    rep = {"stage": stage.name, "fault_item": it, "fault_flavour": flav, "workers": nw, "policy": pol, "status": out.status, "fault_started": fs,
                            "seed": ctx.seed, "trace_tail": [list(map(str, t)) for t in out.trace[-40:]]}
-                    judge_fault(ctx, "%s, fault at %s, %d workers, %s" % (stage.name, it, nw, pol), "C19:%s" % stage.key, out, log, rep)
+                    judge_fault(ctx, "%s, %s fault at %s, %d workers, %s" % (stage.name, flav, it, nw, pol), "C19:%s" % stage.key, out, log, rep)
                     ctx.distinct(("fault", stage.key, repr(it), nw, tuple((a, o) for a, _op, o in out.trace)))
 
 
@@ -72,12 +76,14 @@ def explore_walk_faults(ctx, depth, confs, nws, policies, runs):
                 for pol in policies:
                     for k in range(runs):
                         log = []
-                        out = simrun.run(c01.walk_main(depth, acc, apex, nw, log, faults={it}, generic=generic), simrun.POLICIES[pol](ctx.rng))
+                        flav = FLAVOURS[ctx.rng.randrange(len(FLAVOURS))]
+                        out = simrun.run(c01.walk_main(depth, acc, apex, nw, log, faults={it}, generic=generic, flavour=flav), simrun.POLICIES[pol](ctx.rng))
                         ctx.count()
                         fs = any(tag == "cb_start" and p == it for tag, p, who in log)
                         rep = {"stage": "walk", "depth": depth, "accept": sorted(acc), "apex": apex, "fault_item": it, "workers": nw, "policy": pol,
                                "status": out.status, "fault_started": fs, "seed": ctx.seed, "trace_tail": [list(map(str, t)) for t in out.trace[-40:]]}
-                        judge_fault(ctx, "parallel walk depth %d apex %s, fault at %s, %d workers, %s" % (depth, apex, it, nw, pol), "C19:walk", out, log, rep)
+                        rep["fault_flavour"] = flav
+                        judge_fault(ctx, "parallel walk depth %d apex %s, %s fault at %s, %d workers, %s" % (depth, apex, flav, it, nw, pol), "C19:walk", out, log, rep)
                         ctx.distinct(("fault", "walk", it, nw, tuple((a, o) for a, _op, o in out.trace)))
 
 
